@@ -216,6 +216,12 @@ def evaluate(case) -> Result:
             elif kind == "RESET" and cur is not None:
                 w.peer_reset(cur)
             elif kind in ("DPR", "DPR_CLOSE") and cur is not None:
+                if live_out and live_in and not case.get("allow_known"):
+                    # the peer has two live connections (known finding: the election of RFC 6733 5.6.4 never runs, only
+                    # one of them is the peer's connection): which of them a DPR concerns at peer level - recorded
+                    # reason vs redial of the other - has no right answer there; not generated, counted
+                    res.classes.append("excluded:dpr-while-two-connections")
+                    continue
                 nc = w.node_conn_for(cur)
                 ready = nc is not None and nc.state in pm.PEER_READY_STATES
                 # a DWA that is already overdue: the I/O-loop turn woken by the DPR checks the timers first
